@@ -978,6 +978,18 @@ lazy_static! {
   static ref EIGHT_CHAR_PROVIDER: Arc<Mutex<Box<dyn EightCharProvider + Sync + Send + 'static>>> = Arc::new(Mutex::new(Box::new(DefaultEightCharProvider::new())));
 }
 
+/// Verification hook (compiled only with `--cfg tyme4rs_verif`): select the eight-character strategy
+/// (0 = Default, 1 = LunarSect2); the static has no public setter.
+#[cfg(tyme4rs_verif)]
+pub fn verif_set_eight_char_provider(which: usize) {
+  use crate::tyme::eightchar::provider::LunarSect2EightCharProvider;
+  let mut p = match EIGHT_CHAR_PROVIDER.lock() { Ok(g) => g, Err(e) => e.into_inner() };
+  *p = match which {
+    1 => Box::new(LunarSect2EightCharProvider::new()),
+    _ => Box::new(DefaultEightCharProvider::new()),
+  };
+}
+
 /// 农历时辰
 #[derive(Debug, Clone)]
 pub struct LunarHour {
